@@ -36,6 +36,28 @@ fn state_events(ctx: &mut Ctx, x: &Series, w: usize) {
             }
         }
         prev_min_pos = vals.iter().filter(|p| p.1 == mn).map(|p| p.0).max();
+        // zero-spread window of inexact floats whose value was already present before the
+        // previous interruption (c, d, c, c): the run counter of ts_vzscore decides, not var > EPS
+        if vals.len() >= 2 && vals.iter().all(|p| p.1 == mn) && (mn * 8.0).fract() != 0.0 {
+            ctx.count("state.constant_inexact_window");
+            let mut j = start;
+            let mut seen_other = false;
+            let mut interrupted = false;
+            while j > 0 && start - j < 2 * wc {
+                j -= 1;
+                if let Some(v) = x[j] {
+                    if v != mn {
+                        seen_other = true;
+                    } else if seen_other {
+                        interrupted = true;
+                        break;
+                    }
+                }
+            }
+            if interrupted {
+                ctx.count("state.constant_inexact_window_after_interrupted_run");
+            }
+        }
     }
 }
 
@@ -107,6 +129,9 @@ fn main() {
         ValClass::Const,
         ValClass::Dyadic,
         ValClass::Alternating,
+        ValClass::FloatPlateaus,
+        ValClass::FloatPlateaus,
+        ValClass::FloatConst,
     ];
     let nmax = ctx.budget(9, 14);
     for len in 1..=nmax {
